@@ -20,6 +20,7 @@ import os
 from harness.lib import common, cppbuild, emb
 from harness.corr import c06_gen as G
 from harness.corr import c06_int as I
+from harness.corr import c06_read as R
 
 # (multiline, comments); single-line with comments is NOT documented as re-readable: a `#`
 # comment swallows the rest of the line (it is still written and parsed, never alarmed on).
@@ -29,6 +30,7 @@ BASES = (10, 16, 2)
 FINDING_SKIP_KEY = "skip-field-determines-layout-of-emitted-field"
 FINDING_ARRAY_KEY = "multiline-array-elements-not-comma-separated"
 FINDING_ENUM_KEY = "negative-signed-enum-in-wider-bits-container"
+FINDING_ANON_KEY = "skip-on-anonymous-bits-subfield-ignored"
 
 DRIVER_PRELUDE = r"""
 #include <cstdint>
@@ -533,7 +535,7 @@ def judge(prep, st, built, opt, line, stats, int_checks, tok_texts, wvals=None):
                         n, "missing" if c else "present", c))
         # 2. round trip
         problems.extend(judge_roundtrip(kv, built, d1, d2))
-    if wvals is not None and (not rr or (parsed is not None and not problems)):
+    if wvals is not None and ((not rr and FINDING_ANON_KEY not in built.flags) or (parsed is not None and not problems)):
         try:
             tree = ("struct", attach_struct_names(st, built.tree), st.name)
             toks = wval_tokens(tree, parsed, prep["orders"])
@@ -548,7 +550,7 @@ def judge(prep, st, built, opt, line, stats, int_checks, tok_texts, wvals=None):
     return problems, parsed, kv
 
 
-def run_modules(chk, mods, buffers_per_struct, r, model_ok, tier, compiler="clang++"):
+def run_modules(chk, mods, buffers_per_struct, r, model_ok, tier, compiler="clang++", defines=(), opt="-O0"):
     """mods: [(Module, origin tag, None | {struct name: [Built]})].  Compiles all drivers in
     parallel, runs, judges."""
     stats = chk.extra.setdefault("txt_distribution", {})
@@ -568,7 +570,7 @@ def run_modules(chk, mods, buffers_per_struct, r, model_ok, tier, compiler="clan
             f.write(prep["header"])
         tops = tops_of(mod)
         jobs.append({"src_text": driver_source(mod, hname, tops), "name": "c06_" + mod.name,
-                     "extra": ["-I" + scratch], "compiler": compiler, "opt": "-O0"})
+                     "extra": ["-I" + scratch], "compiler": compiler, "opt": opt, "defines": tuple(defines)})
         preps.append((mod, origin, prep, tops, fixed))
     built_bins = cppbuild.compile_many(jobs, workers=8)
     opts = option_sets(tier, r)
@@ -590,7 +592,8 @@ def run_modules(chk, mods, buffers_per_struct, r, model_ok, tier, compiler="clan
         run_items.append((binary, "\n".join(lines) + "\n"))
         metas.append((mod, origin, prep, meta, lines))
     results = cppbuild.run_many(run_items, workers=6)
-    int_checks, tok_texts, wvals = [], [], []
+    int_checks, tok_texts, wvals, rvals = [], [], [], []
+    shapes = {}
     second = []      # per module: [(meta index, line)] to run with a comma-repaired text
     for mi, ((mod, origin, prep, meta, lines), res) in enumerate(zip(metas, results)):
         stats["modules"] = stats.get("modules", 0) + 1
@@ -616,6 +619,8 @@ def run_modules(chk, mods, buffers_per_struct, r, model_ok, tier, compiler="clan
                                          wvals if model_ok else None)
             if problems is None:
                 continue
+            if model_ok and (opt[0], opt[1]) != LAYOUT_NOT_RR and "text" in kv:
+                add_rval(rvals, shapes, stats, st, kv)
             for ftag in struct_features(st):
                 stats["feature_" + ftag] = stats.get("feature_" + ftag, 0) + 1
             stats["options_m%d_c%d" % opt[:2]] = stats.get("options_m%d_c%d" % opt[:2], 0) + 1
@@ -646,6 +651,8 @@ def run_modules(chk, mods, buffers_per_struct, r, model_ok, tier, compiler="clan
             stats["second_pass_with_commas"] = stats.get("second_pass_with_commas", 0) + 1
             kv = dict(x.split("=", 1) for x in ans.split(" ") if "=" in x)
             d1, d2 = parse_dump(I.unhex(kv["d1"])), parse_dump(I.unhex(kv["d2"]))
+            if model_ok:
+                add_rval(rvals, shapes, stats, st, kv)
             problems = judge_roundtrip(kv, built, d1, d2)
             if problems:
                 report(chk, stats, reported, mod, origin + "+commas", prep, st, built, opt, kv, problems, None, None, ci, ln)
@@ -695,36 +702,112 @@ def run_modules(chk, mods, buffers_per_struct, r, model_ok, tier, compiler="clan
                         "theorem_or_correspondence": "model_c06 WVAL vs WriteToString"}, found_input=False)
         chk.extra["txt_model_writer_ops"] = chk.extra.get("txt_model_writer_ops", 0) + len(wops)
         chk.extra["txt_model_writer_disagreements"] = chk.extra.get("txt_model_writer_disagreements", 0) + wdis
+        # the reader model on the real texts (and on the comma-repaired ones)
+        seen, rops = set(), []
+        for rv in rvals:
+            if rv[0] not in seen:
+                seen.add(rv[0])
+                rops.append(rv)
+        if tier == "quick":
+            rops = rops[:4000]
+        rans = common.Model("model_c06").ask([x[0] for x in rops])
+        rdis = 0
+        for (op, text, upd, d2, stname), a in zip(rops, rans):
+            kind, writes = R.parse_answer(a)
+            bad = None
+            if kind not in ("ok", "fail"):
+                bad = "model answered %r" % a
+            elif (kind == "ok") != upd:
+                bad = "model %s, real UpdateFromText returned %s" % (kind, upd)
+            elif kind == "ok":
+                for pth, v in writes.items():
+                    if pth in d2 and not v.startswith("tok:") and d2[pth] != v:
+                        bad = "model wrote %s=%s, real view reads %s afterwards" % (pth, v, d2[pth])
+                        break
+            if bad:
+                rdis += 1
+                if rdis <= 3:
+                    chk.violation("correspondence", {
+                        "op": op[:2000], "struct": stname, "text": text, "observed": "UpdateFromText=%s" % upd,
+                        "model": a[:1000], "expected": bad,
+                        "theorem_or_correspondence": "model_c06 RVAL vs UpdateFromText"}, found_input=False)
+        chk.extra["txt_model_reader_ops"] = chk.extra.get("txt_model_reader_ops", 0) + len(rops)
+        chk.extra["txt_model_reader_disagreements"] = chk.extra.get("txt_model_reader_disagreements", 0) + rdis
         chk.extra["txt_model_ops"] = chk.extra.get("txt_model_ops", 0) + len(ops)
         chk.extra["txt_model_disagreements"] = chk.extra.get("txt_model_disagreements", 0) + dis
 
 
+def anon_skip_only(problems, built):
+    """Every problem is "unexpected names" at some struct level, the unexpected names all being
+    anonymous-bits subfields marked Skip, nothing missing."""
+    import ast
+    import re
+    for p in problems:
+        m = re.search(r"\(missing (\[.*?\]), unexpected (\[.*?\])\)$", p)
+        if not m:
+            return False
+        missing, extra = ast.literal_eval(m.group(1)), ast.literal_eval(m.group(2))
+        if missing or not extra or not set(extra) <= built.anon_skip_names:
+            return False
+    return True
+
+
+def add_rval(rvals, shapes, stats, st, kv):
+    if id(st) not in shapes:
+        try:
+            shapes[id(st)] = R.struct_shape(st)
+        except R.NoShape:
+            shapes[id(st)] = None
+    sh = shapes[id(st)]
+    if sh is None:
+        stats["rval_skipped_dynamic_shape"] = stats.get("rval_skipped_dynamic_shape", 0) + 1
+        return
+    text = I.unhex(kv["text"])
+    if any(ord(ch) > 255 for ch in text):
+        return
+    rvals.append(("RVAL %s %s" % (I.hexs(text) or "-", " ".join(sh)), text, kv.get("upd") == "1",
+                  parse_dump(I.unhex(kv["d2"])), st.name))
+
+
 def report(chk, stats, reported, mod, origin, prep, st, built, opt, kv, problems, parsed, second, ci, ln):
-    """Routes a failing case: known-finding keys only through their narrow predicates."""
-    rt_only = all(p.startswith("RT:") for p in problems)
+    """Routes a failing case.  Every symptom must be explained by an open finding through that
+    finding's narrow predicate, otherwise the case is an ordinary violation."""
     skip_pred = G.skip_locates_emitted(st)
     text = I.unhex(kv.get("text", ""))
-    key = None
-    if rt_only and skip_pred:
-        key = FINDING_SKIP_KEY
-    elif rt_only and FINDING_ENUM_KEY in built.flags:
-        key = FINDING_ENUM_KEY
-    elif (rt_only and second is not None and opt[0] == 1 and kv.get("upd") != "1" and has_long_array(parsed)):
-        key = FINDING_ARRAY_KEY
+    keys, unexplained = [], []
+    for p in problems:
+        if FINDING_ANON_KEY in built.flags and anon_skip_only([p], built):
+            k = FINDING_ANON_KEY
+        elif p.startswith("RT:") and skip_pred:
+            k = FINDING_SKIP_KEY
+        elif p.startswith("RT:") and FINDING_ENUM_KEY in built.flags:
+            k = FINDING_ENUM_KEY
+        elif (p.startswith("RT:") and second is not None and opt[0] == 1 and kv.get("upd") != "1"
+              and has_long_array(parsed)):
+            k = FINDING_ARRAY_KEY
+        else:
+            unexplained.append(p)
+            continue
+        if k not in keys:
+            keys.append(k)
+    if unexplained:
+        keys = [None]
+    elif FINDING_ARRAY_KEY in keys and FINDING_SKIP_KEY not in keys and FINDING_ENUM_KEY not in keys:
         second.append((ci, ln + " " + I.hexs(add_commas(text))))
-    if key is not None:
-        stats["routed_" + key] = stats.get("routed_" + key, 0) + 1
-    sig = (st.name, key, problems[0][:30])
-    if sig in reported:
-        return
-    reported.add(sig)
-    chk.violation("input", {
-        "part": "TXT", "origin": origin, "emb": prep["text"], "struct": st.name,
-        "buffer": bytes(built.buf).hex(),
-        "options": dict(zip(("multiline", "comments", "base", "grouping"), opt)),
-        "text": text, "observed": problems[:6],
-        "expected": "property statement (order / presence / values / round trip)",
-        "predicate_skip_locates_emitted": skip_pred}, key=key)
+    for key in keys:
+        if key is not None:
+            stats["routed_" + key] = stats.get("routed_" + key, 0) + 1
+        sig = (st.name, key, (unexplained or problems)[0][:30])
+        if sig in reported:
+            continue
+        reported.add(sig)
+        chk.violation("input", {
+            "part": "TXT", "origin": origin, "emb": prep["text"], "struct": st.name,
+            "buffer": bytes(built.buf).hex(),
+            "options": dict(zip(("multiline", "comments", "base", "grouping"), opt)),
+            "text": text, "observed": (unexplained or problems)[:6],
+            "expected": "property statement (order / presence / values / round trip)",
+            "predicate_skip_locates_emitted": skip_pred}, key=key)
 
 
 def struct_features(st):
@@ -799,6 +882,23 @@ def pinned_f13():
                         {"data[0]", "data[1]"},
                         [("data", ("array", [("scalar", _u8(), 7), ("scalar", _u8(), 9)]))])
     return mod, "pinned:" + FINDING_SKIP_KEY, {"Foo": [built]}
+
+
+def pinned_anon_skip():
+    """findings.d/C06.json: Skip on a field inside an anonymous `bits` is ignored."""
+    u4 = G.Scalar("uint", 4)
+    lo = G.Field("lo", ("scalar", u4), 0, 4, attr="Skip")
+    hi = G.Field("hi", ("scalar", u4), 4, 4)
+    bt = G.StructT("FooAnon", "bits", [lo, hi], 8)
+    anon = G.Field("anon", ("struct", bt), 0, 1, anonymous_bits=bt)
+    z = G.Field("z", ("scalar", _u8()), 1, 1)
+    st = G.StructT("Foo", "struct", [anon, z], 2)
+    mod = G.Module("pinanon", [], [st], "LittleEndian")
+    built = fixed_built(b"\xa5\x07", "UE", [("lo", "5"), ("hi", "10"), ("z", "7")], {"hi", "z"},
+                        [("hi", ("scalar", u4, 10)), ("z", ("scalar", _u8(), 7))])
+    built.flags.add(FINDING_ANON_KEY)
+    built.anon_skip_names.add("lo")
+    return mod, "pinned:" + FINDING_ANON_KEY, {"Foo": [built]}
 
 
 def pinned_array():
